@@ -7,7 +7,7 @@ From Coq Require Import ExtrOcamlBasic.
 From NV Require Import Index.W32 Index.ArrIndex Index.SliceRange Index.StrIndex Index.Shapes Exc.ExcTab.
 
 Extraction "indexmodel.ml"
-  dim_mult dim_addr array_deref mk_arr arr_elems
+  dim_mult dim_fits dim_addr array_deref mk_arr arr_elems mk_array
   get_slice_range compose_ranges slice_range slice_array slice_slice range_deref slice_deref
   string_deref slice_string
   new_arr can_add can_mult arr_addsub arr_matmul arr_unary dim_copy arr_copy
